@@ -29,7 +29,7 @@ def sim(name, scenario, **kw):
 
 
 def c12_jobs(tier):
-    jobs = [sim("c12-direct", "c12", require_counters=["topic_deleted_before_subscription", "stream_ended_not_found", "delete_inside_burst_over_mailbox", "delete_abandoned_by_its_client", "same_name_created_around_the_delete"])]
+    jobs = [sim("c12-direct", "c12", require_counters=["topic_deleted_before_subscription", "stream_ended_not_found", "delete_inside_burst_over_mailbox", "delete_abandoned_by_its_client", "same_name_created_around_the_delete", "a_stream_that_stopped_reading_at_the_deletion"])]
     # requests that reach the subscription in the instant its actor stops: two steps of the sender on
     # worker threads, one step on the simulated engine - stable build, 6-worker runtime, real clock
     jobs.append(sim("c12-deletion-instant-mt", "c12m", engine_arg="mt", shards=8, episodes=48 if tier == "quick" else 192,
